@@ -53,7 +53,8 @@ class SigWorld(HistoryWorld):
 
     def make_config(self, rng, leg, run_index):
         n = rng.choice([0, 1, 2, 3, 3, 4, 5, 6, 7, 9, 12])
-        mode = rng.choice(['equal', 'equal3', 'dominant', 'random', 'thirds'])
+        mode = rng.choice(['equal', 'equal3', 'dominant', 'random', 'thirds', 'big-boundary'])
+        signers = None
         if mode == 'equal':
             w = [rng.choice([1, 10, 1000])] * n
         elif mode == 'equal3':
@@ -68,8 +69,29 @@ class SigWorld(HistoryWorld):
             if n >= 2:
                 s = sum(w[:-1])
                 w[-1] = (3 - s % 3) % 3 or 3
+        elif mode == 'big-boundary':
+            # main-net scale weights (64-bit; totals around 2^60 and above) with the signing group A within a few units of
+            # two thirds: w(A) = 2 w(B) + d  <=>  3 w(A) - 2 w(total) = d
+            n = max(n, 2)
+            ka = rng.randint(1, n - 1)
+            scale = rng.choice([50, 53, 56, 59, 60, 61, 62])
+            wb = [rng.randint(2 ** (scale - 5), 2 ** scale // (n - ka)) for _ in range(n - ka)]
+            d = rng.choice([-130, -92, -64, -3, -2, -1, 0, 1, 2, 3, 64, 129, rng.randint(-200, 200)])
+            target = 2 * sum(wb) + d
+            wa = []
+            rest = target
+            for j in range(ka - 1):
+                x = rng.randint(1, max(1, rest // (ka - j) ))
+                wa.append(x)
+                rest -= x
+            wa.append(rest)
+            w = wa + wb
+            signers = list(range(ka))
         else:
             w = [rng.randint(1, 2 ** rng.choice([4, 32, 60])) for _ in range(n)]
+        if signers is not None:
+            return {'n': n, 'weights': w, 'key_seed': rng.getrandbits(64), 'net': {'drop': 0, 'dup': rng.choice([0, 0.2]), 'jitter': rng.choice([0, 3, 10])},
+                    'byz': 0, 'blk_seed': rng.getrandbits(64), 'steps': 3, 'respell': False, 'signers': signers}
         return {'n': n, 'weights': w, 'key_seed': rng.getrandbits(64), 'net': {'drop': rng.choice([0, 0.1, 0.4]), 'dup': rng.choice([0, 0.2, 0.5]), 'jitter': rng.choice([0, 3, 10])},
                 'byz': rng.choice([0, 0, 1, 2]), 'blk_seed': rng.getrandbits(64), 'steps': 3, 'respell': rng.random() < 0.4}
 
@@ -109,6 +131,9 @@ class SigWorld(HistoryWorld):
         n = cfg['n']
         byz = set(rng.sample(range(n), min(cfg['byz'], n))) if n else set()
         signers = [i for i in range(n) if rng.random() < 0.85]
+        if cfg.get('signers') is not None:
+            signers = [i for i in cfg['signers'] if i < n]
+            ctx.probe('big-weights-near-two-thirds')
         for i in signers:
             if i in byz:
                 kind = rng.choice(['other-block', 'corrupt', 'corrupt-id'])
